@@ -15,6 +15,7 @@ Record case := mk_case {
   o_update : list Z; n_update : list Z; o_update_twins : list Z;
   o_del : list Z; n_del : list Z; o_del_twins : list Z; o_del_again : list Z;
   o_unscoped_find : list Z; n_unscoped_find : list Z; o_unscoped_del : list Z;
+  o_assoc : list (list Z); n_assoc : list (list Z);   (* preload / association lookups / joins of soft-delete models, with and without twins *)
   o_errs : Z
 }.
 
@@ -90,6 +91,8 @@ Definition spec_holds (c : case) : bool :=
        (merge_sorted (List.length (n_unscoped_find c) * 2 + 2) (n_unscoped_find c)
                      (map (fun i => (i + 100)%Z) (n_unscoped_find c)))
   && (leading_or c || zlist_eqb (n_unscoped_find c) (n_find c))
-  && zlist_eqb (o_unscoped_del c) (o_unscoped_find c).
+  && zlist_eqb (o_unscoped_del c) (o_unscoped_find c)
+  (* association join, preload and association lookups: as if the marked rows did not exist *)
+  && list_eqb zlist_eqb (o_assoc c) (n_assoc c).
 
 Definition check_case (c : case) : N := code_of (model_agrees c) (spec_holds c).
